@@ -2002,9 +2002,27 @@ class MZgate(Gate):
     def __init__(self, phi_in, phi_ex):
         super().__init__([phi_in, phi_ex])
 
+    def apply(self, reg, backend, **kwargs):
+        # The internal phase is not a "first parameter" in the sense of Gate:
+        # MZgate(0, phi_ex) is not the identity, so it must not be skipped.
+        if np.all(self.p[0] == 0):
+            temp = [rr.ind for rr in reg]
+            self._apply(temp, backend, **kwargs)
+            return
+        super().apply(reg, backend, **kwargs)
+
     def _apply(self, reg, backend, **kwargs):
         phi_in, phi_ex = par_evaluate(self.p)
-        backend.mzgate(phi_in, phi_ex, *reg)
+        if self.dagger:
+            # Gate.apply has negated phi_in, but MZ(-phi_in, phi_ex) is not the inverse of
+            # MZ(phi_in, phi_ex); apply the inverse through its factors instead:
+            # MZ^dagger = R(-phi_ex) BS^dagger R(-phi_in) BS^dagger, BS^dagger(theta, phi) = BS(-theta, phi)
+            backend.beamsplitter(-np.pi / 4, np.pi / 2, *reg)
+            backend.rotation(phi_in, reg[0])
+            backend.beamsplitter(-np.pi / 4, np.pi / 2, *reg)
+            backend.rotation(-phi_ex, reg[0])
+        else:
+            backend.mzgate(phi_in, phi_ex, *reg)
 
     def _decompose(self, reg, **kwargs):
         # into local phase shifts and two 50-50 beamsplitters
